@@ -413,6 +413,10 @@ func checkC16(r *Run) {
 			}
 		})
 	}
+	c.ruleServeNeverNil(r3)
+	if rm != nil {
+		c.ruleKeepAliveCtx(r4, rm)
+	}
 	// --- R-C16-5
 	if c.closedField() == nil {
 		r5.Bad("(*BaseClient).Done", token.NoPos, "Done() does not return a channel field of the client")
